@@ -47,6 +47,13 @@ func neverFails(call *ssa.Call) bool {
 			recv = f.Signature.Recv().Type()
 		}
 	}
+	if f := cc.StaticCallee(); f != nil && f.Pkg != nil {
+		// error constructors produce an error value, they do not fail
+		switch f.Pkg.Pkg.Path() + "." + f.Name() {
+		case "fmt.Errorf", "errors.New", "errors.Join":
+			return true
+		}
+	}
 	if recv == nil {
 		return false
 	}
@@ -227,6 +234,16 @@ func (p *Program) checkErrSite(s *errSite) errVerdict {
 				okKeyTrue = true
 			}
 		}
+		// "keep the first error": a captured error variable is already non-nil on this path
+		alreadyFailed := false
+		for k, val := range pa.Asg {
+			if kt := pa.KeyTerm[k]; kt != nil {
+				if x, ok := isNilTest(kt); ok && isErrorType(x) && val.Kind() == constant.Bool && !constant.BoolVal(val) &&
+					(x.Op == "load" && x.Args[0].Op == "freevar" || x.Op == "freevar") {
+					alreadyFailed = true
+				}
+			}
+		}
 		handedOff, storedToCaptured, passedOn := false, false, false
 		for _, e := range pa.Effects {
 			switch e.Kind {
@@ -265,6 +282,10 @@ func (p *Program) checkErrSite(s *errSite) errVerdict {
 						idioms["ok-flag dispatch (callee returns ok=false with every error)"] = true
 					} else if storedToCaptured {
 						idioms["stored to a captured variable"] = true
+						if why := capturedErrLost(f, s.errVal); why != "" {
+							v.status, v.detail = "swallowed", why
+							return v
+						}
 					} else {
 						v.status, v.detail = "unchecked", "a path from the call to a return at "+p.Pos(pa.ExitInstr.Pos())+" neither tests nor returns the error of "+s.callee
 						return v
@@ -277,9 +298,15 @@ func (p *Program) checkErrSite(s *errSite) errVerdict {
 					idioms["handed to options.errors"] = true
 				case storedToCaptured:
 					idioms["stored to a captured variable"] = true
+					if why := capturedErrLost(f, s.errVal); why != "" {
+						v.status, v.detail = "swallowed", why
+						return v
+					}
 				case okKeyTrue && calleeErrImpliesFalse(s.call.Common().StaticCallee(), 0, s.errIdx):
 					idioms["ok-flag dispatch (callee returns ok=false with every error)"] = true
 				case tested && !nonNil:
+				case alreadyFailed:
+					idioms["first error kept in a captured variable"] = true
 				default:
 					v.status, v.detail = "swallowed", "the error of "+s.callee+" does not leave "+funcName(f)+" (no error result, not stored, not handed off)"
 					return v
@@ -322,6 +349,68 @@ func (p *Program) checkErrSite(s *errSite) errVerdict {
 	sort.Strings(ids)
 	v.idiom = strings.Join(ids, " + ")
 	return v
+}
+
+// capturedErrLost: e is stored into a variable captured from the parent; the parent (unless the
+// closure itself also returns e) must return that variable as its error. Returns "" when fine.
+func capturedErrLost(f *ssa.Function, e ssa.Value) string {
+	par := f.Parent()
+	if par == nil {
+		return ""
+	}
+	// the free variable(s) e is stored to
+	var cells []*ssa.Alloc
+	allInstrs(f, func(_ *ssa.BasicBlock, in ssa.Instruction) {
+		st, ok := in.(*ssa.Store)
+		if !ok {
+			return
+		}
+		derived := st.Val == e
+		if mi, ok := st.Val.(*ssa.MakeInterface); ok && mi.X == e {
+			derived = true
+		}
+		if !derived {
+			return
+		}
+		if fv, ok := st.Addr.(*ssa.FreeVar); ok {
+			// resolve the binding in the parent
+			allInstrs(par, func(_ *ssa.BasicBlock, pin ssa.Instruction) {
+				if mc, ok := pin.(*ssa.MakeClosure); ok && mc.Fn == f {
+					for i, b := range mc.Bindings {
+						if i < len(f.FreeVars) && f.FreeVars[i] == fv {
+							if a, ok := b.(*ssa.Alloc); ok {
+								cells = append(cells, a)
+							}
+						}
+					}
+				}
+			})
+		}
+	})
+	if len(cells) == 0 {
+		return ""
+	}
+	pei := errIdx(par)
+	if pei < 0 {
+		return "the error is stored into a variable of " + funcName(par) + ", which has no error result"
+	}
+	for _, cell := range cells {
+		returned := false
+		allInstrs(par, func(_ *ssa.BasicBlock, in ssa.Instruction) {
+			r, ok := in.(*ssa.Return)
+			if !ok || pei >= len(r.Results) {
+				return
+			}
+			v := r.Results[pei]
+			if u, ok := v.(*ssa.UnOp); ok && u.Op == token.MUL && u.X == ssa.Value(cell) {
+				returned = true
+			}
+		})
+		if !returned {
+			return "the error is stored into the captured variable " + cell.Comment + " but " + funcName(par) + " never returns that variable as its error"
+		}
+	}
+	return ""
 }
 
 // panicIsConverted: f is a closure handed to a call inside a parent that defers a recover handler
@@ -392,9 +481,31 @@ func usedBeforeTest(p *Program, s *errSite) string {
 	if refs == nil {
 		return ""
 	}
+	// ok-flag idiom: a boolean result that the callee returns false with every error guards the others
+	okIdx := -1
+	if callee := s.call.Common().StaticCallee(); callee != nil {
+		for i := 0; i < s.call.Common().Signature().Results().Len(); i++ {
+			if i != s.errIdx && s.call.Common().Signature().Results().At(i).Type().String() == "bool" && calleeErrImpliesFalse(callee, i, s.errIdx) {
+				okIdx = i
+			}
+		}
+	}
+	if okIdx >= 0 {
+		for _, r := range *refs {
+			if ex, ok := r.(*ssa.Extract); ok && ex.Index == okIdx {
+				if er := ex.Referrers(); er != nil {
+					for _, u := range *er {
+						if iff, ok := u.(*ssa.If); ok {
+							nilSuccs = append(nilSuccs, iff.Block().Succs[0])
+						}
+					}
+				}
+			}
+		}
+	}
 	for _, r := range *refs {
 		ex, ok := r.(*ssa.Extract)
-		if !ok || ex.Index == s.errIdx {
+		if !ok || ex.Index == s.errIdx || ex.Index == okIdx {
 			continue
 		}
 		var bad string
